@@ -1509,7 +1509,7 @@ int EGLPNUM_TYPENAME_ILLlib_delrows (
 				bok = 0;
 				break;
 			}
-			if (C && EGLPNUM_TYPENAME_EGlpNumIsLess (EGLPNUM_TYPENAME_DFEAS_TOLER, C->pi[j]))
+			if (C && EGLPNUM_TYPENAME_EGlpNumIsNeqZero (C->pi[j], EGLPNUM_TYPENAME_DFEAS_TOLER))
 			{
 /*
                 QSlog("XXXX: Postive pi (%f) at basic row", C->pi[j]);
